@@ -36,6 +36,7 @@ type Case struct {
 	Shred  *SN    `json:"shred,omitempty"`
 	Write  string `json:"write"`
 	Read   string `json:"read"`
+	Nest   int    `json:"nest,omitempty"`  // >0: the values are also written as a repeated group of variants, Nest per row
 	Churn  int    `json:"churn,omitempty"` // >0: that many extra rows {"id<i>": {"x": i}, "a": 1}: hundreds of distinct field names accumulate in a column writer's dictionary
 }
 
@@ -226,6 +227,9 @@ func genCase(t *rapid.T) Case {
 	for i := 0; i < n; i++ {
 		c.Values = append(c.Values, genVV(t, 0))
 	}
+	if rapid.IntRange(0, 3).Draw(t, "nested") == 0 {
+		c.Nest = rapid.IntRange(1, 3).Draw(t, "nest")
+	}
 	if rapid.IntRange(0, 11).Draw(t, "churn") == 5 {
 		c.Churn = rapid.IntRange(260, 420).Draw(t, "churnn")
 	}
@@ -304,6 +308,106 @@ type rawVariant struct {
 type writeRow struct {
 	ID  int32 `parquet:"id"`
 	Var any   `parquet:"var,variant"`
+}
+
+// a variant column under a repeated group
+type itemW struct {
+	Var any `parquet:"var,variant"`
+}
+
+type writeRowN struct {
+	ID    int32   `parquet:"id"`
+	Items []itemW `parquet:"items"`
+}
+
+type itemR struct {
+	Var rawVariant `parquet:"var,variant"`
+}
+
+type readRowN struct {
+	ID    int32   `parquet:"id"`
+	Items []itemR `parquet:"items"`
+}
+
+// nested writes the values as rows of k variants under a repeated group and reads them back.
+func nested(c Case, raws []rawVariant, node parquet.Node, feat string) *kit.Failure {
+	schema := parquet.NewSchema("table", parquet.Group{"id": parquet.Int(32), "items": parquet.Repeated(parquet.Group{"var": node})})
+	var rows []writeRowN
+	for i := 0; i < len(raws); i += c.Nest {
+		r := writeRowN{ID: int32(len(rows))}
+		for j := i; j < i+c.Nest && j < len(raws); j++ {
+			r.Items = append(r.Items, itemW{Var: raws[j]})
+		}
+		rows = append(rows, r)
+	}
+	var buf bytes.Buffer
+	var werr error
+	switch c.Write {
+	case "buffer_row_group":
+		b := parquet.NewGenericBuffer[writeRowN](schema)
+		if _, werr = b.Write(rows); werr == nil {
+			w := parquet.NewGenericWriter[writeRowN](&buf, schema)
+			if _, werr = w.WriteRowGroup(b); werr == nil {
+				werr = w.Close()
+			}
+		}
+	case "deconstruct_rows":
+		w := parquet.NewGenericWriter[writeRowN](&buf, schema)
+		dec := make([]parquet.Row, len(rows))
+		for i := range rows {
+			dec[i] = schema.Deconstruct(nil, &rows[i])
+		}
+		if _, werr = w.WriteRows(dec); werr == nil {
+			werr = w.Close()
+		}
+	default:
+		w := parquet.NewGenericWriter[writeRowN](&buf, schema)
+		if _, werr = w.Write(rows); werr == nil {
+			werr = w.Close()
+		}
+	}
+	if werr != nil {
+		return kit.Failf("c19/nested/write-error"+feat, "writing %d rows of %d variants under a repeated group: %v", len(rows), c.Nest, werr)
+	}
+	data := buf.Bytes()
+	var got []readRowN
+	var rerr error
+	if c.Read == "direct" {
+		r := parquet.NewGenericReader[readRowN](bytes.NewReader(data), schema)
+		got = make([]readRowN, len(rows))
+		var n int
+		n, rerr = r.Read(got)
+		if errors.Is(rerr, io.EOF) {
+			rerr = nil
+		}
+		got = got[:n]
+		r.Close()
+	} else {
+		got, rerr = parquet.Read[readRowN](bytes.NewReader(data), int64(len(data)))
+	}
+	if rerr != nil {
+		return kit.Failf("c19/nested/read-error"+feat, "%v", rerr)
+	}
+	if len(got) != len(rows) {
+		return kit.Failf("c19/nested/rowcount"+feat, "%d rows read, %d written", len(got), len(rows))
+	}
+	k := 0
+	for i, g := range got {
+		if len(g.Items) != len(rows[i].Items) {
+			return kit.Failf("c19/nested/value-changed"+feat, "row %d: %d variants read, %d written", i, len(g.Items), len(rows[i].Items))
+		}
+		for j, it := range g.Items {
+			back, err := refDecode(it.Var.Metadata, it.Var.Value)
+			if err != nil {
+				return kit.Failf("c19/nested/readback-not-per-spec"+feat, "row %d item %d: the independent decoder rejects the variant read back: %v", i, j, err)
+			}
+			if d := diffVV(c.Values[k], back, "value"); d != "" {
+				return kit.Failf("c19/nested/value-changed"+feat, "row %d item %d (written %s): %s", i, j, c.Values[k].K, d)
+			}
+			k++
+		}
+	}
+	return nil
 }
 
 type readRow struct {
@@ -473,6 +577,12 @@ func runCase(c Case, o *kit.Obs) *kit.Failure {
 		if c.Shred != nil && (c.Values[i].K == "object" || c.Values[i].K == "array") && (c.Shred.K == "object" || c.Shred.K == "list") {
 			partial = true
 		}
+	}
+	if c.Nest > 0 {
+		if fl := nested(c, raws, node, feat); fl != nil {
+			return fl
+		}
+		o.Class("variant-under-repeated-group")
 	}
 	o.Class("write-" + c.Write)
 	o.Class("read-" + c.Read)
